@@ -2,6 +2,7 @@ package checks
 
 import (
 	"fmt"
+	"github.com/zmap/zlint/v3/util"
 	"math/big"
 	"math/rand"
 	"regexp"
@@ -407,8 +408,12 @@ func init() {
 			_ = t0
 			return nil
 		},
-		Cases: func(c *mon.Ctx) int { return len(c16Cases) + c16NFermat },
+		Cases: func(c *mon.Ctx) int { return len(c16Cases) + c16NFermat + c16DateCases() },
 		RunCase: func(c *mon.Ctx, i int) {
+			if i >= len(c16Cases)+c16NFermat {
+				c16DateLattice(c, i-len(c16Cases)-c16NFermat)
+				return
+			}
 			if i < len(c16Cases) {
 				c16Judge(c, c16Cases[i])
 				if i%211 == 0 {
@@ -440,10 +445,113 @@ func init() {
 					}
 				}
 			}
+			ev.Coverage["date_lattice_verdicts_judged"] = r.Counters["date_lattice_verdicts_judged"]
+			ev.Coverage["date_lattice_lints_judged_at_an_instant"] = r.SetSize("date_lattice_judged")
+			if r.Counters["date_lattice_verdicts_judged"] < 2000 {
+				gates = append(gates, "date lattice judged too few verdicts")
+			}
 			if r.Sets["fermat_outcomes"]["found=true"] == 0 || r.Sets["fermat_outcomes"]["found=false"] == 0 {
 				gates = append(gates, "Fermat lint not judged on both sides of the round limit")
 			}
 			return gates
 		},
 	})
+}
+
+// ---- date lattice ----
+//
+// "On which they apply" is decided by the lints from the certificate's dates (several of them switch on notAfter or
+// notBefore relative to a cut-off). Whatever a lint decides about applying, WHEN IT JUDGES it must judge exactly its
+// arithmetic predicate. So certificates are dated at every cut-off instant used by zlint's date table that lies in the
+// RSA transition years, and at the RSA lints' own effective dates, -1 s / 0 / +1 s, as notBefore and as notAfter, on
+// subscriber, sub-CA and code-signing templates, with moduli around each minimum; NA and NE are accepted here, a
+// verdict that differs from the arithmetic is not.
+
+var c16DateInstants = func() []time.Time {
+	base := []time.Time{util.NoRSA1024RootDate, util.NoRSA1024Date, util.CABEffectiveDate, util.CABV102Date, util.CABV113Date, util.MozillaPolicy22Date, util.MozillaPolicy24Date,
+		time.Date(2010, 12, 31, 0, 0, 0, 0, time.UTC), time.Date(2013, 12, 31, 0, 0, 0, 0, time.UTC), time.Date(2013, 12, 31, 23, 59, 59, 0, time.UTC), util.RFC5280Date, time.Date(2019, 8, 13, 0, 0, 0, 0, time.UTC)}
+	var out []time.Time
+	seen := map[int64]bool{}
+	for _, b := range base {
+		for _, d := range []time.Duration{-time.Second, 0, time.Second} {
+			t := b.Add(d)
+			if !seen[t.Unix()] {
+				seen[t.Unix()] = true
+				out = append(out, t)
+			}
+		}
+	}
+	return out
+}()
+
+var c16DateBits = []int{1023, 1024, 1536, 2047, 2048, 2049, 3071, 3072}
+
+func c16DateCases() int { return len(c16DateInstants) * 3 * 3 * len(c16DateBits) }
+
+func c16DateLattice(c *mon.Ctx, k int) {
+	bits := c16DateBits[k%len(c16DateBits)]
+	k /= len(c16DateBits)
+	tmpl := k % 3
+	k /= 3
+	role := k % 3
+	t := c16DateInstants[k/3%len(c16DateInstants)]
+	var nb, na time.Time
+	switch role {
+	case 0:
+		nb, na = t, t.AddDate(2, 0, 0)
+	case 1:
+		nb, na = t.AddDate(-1, 0, 0), t
+	default:
+		nb, na = t.AddDate(-5, 0, 0), t
+	}
+	n := modulusOfBits(bits)
+	e := []*big.Int{big.NewInt(65537), big.NewInt(3), big.NewInt(65536), big.NewInt(1)}[(bits+tmpl+role)%4]
+	var s *gen.Spec
+	var tn string
+	switch tmpl {
+	case 0:
+		s, tn = gen.TLSLeaf(nb, "www.example.com"), "subscriber"
+	case 1:
+		s, tn = gen.SubCA(nb), "sub-ca"
+	default:
+		s, tn = gen.CSLeaf(nb), "code-signing"
+	}
+	s.NotBefore, s.NotAfter = nb, na
+	s.SPKI = gen.RSASPKI(n, e)
+	o, _ := mon.ParseObj(corpus.Cert, "gen/rsa-dates/"+tn, s.DER())
+	if o == nil {
+		return
+	}
+	rs, pv, _ := o.Lint(lint.GlobalRegistry())
+	c.R.Count("evaluations", 1)
+	if pv != nil || rs == nil {
+		return
+	}
+	for name := range c16AllLints() {
+		r := rs.Results[name]
+		if r == nil || r.Status == lint.NA || r.Status == lint.NE || r.Status == lint.Fatal {
+			continue
+		}
+		want, ok := c16Expect(name, n, e)
+		if !ok {
+			continue
+		}
+		c.R.Count("date_lattice_verdicts_judged", 1)
+		c.R.Distinct("date_lattice_judged", name+"@"+t.Format(time.RFC3339))
+		if r.Status != want {
+			c.V(fmt.Sprintf("wrong-verdict|%s|want-%s", name, want), fmt.Sprintf("%s = %s, arithmetic says %s: %d-bit modulus, e=%s, %s certificate valid %s .. %s", name, r.Status, want, n.BitLen(), e, tn, nb.Format(time.RFC3339), na.Format(time.RFC3339)), name, inputs(o), nil)
+		}
+	}
+}
+
+func c16AllLints() map[string]bool {
+	out := map[string]bool{}
+	for _, t := range c16Templates {
+		for _, l := range t.lints {
+			if l != "e_rsa_fermat_factorization" {
+				out[l] = true
+			}
+		}
+	}
+	return out
 }
